@@ -43,8 +43,8 @@ theorem call_reported
   have hkm : "Call".toList ∈ bc.kinds := by rw [hkinds]; exact rulesFor_mem_kinds hrm
   refine mem_runVisit hd hmem hkm ?_
   generalize stateAfter {} (pre ++ [v]) = s at hq ⊢
-  let env : Env := { v := v, st := s, ctx := ⟨v.node.line?, v.node.col?, linerange v.node v.sib⟩, lines := inp.lines }
-  have hfc : env.forCheck bc = { env with v := v.erase } := forCheck_erased (blacklistCheck_usesPos hbc)
+  let env : Env := { v := v, st := s, ctx := ⟨v.node.line?, v.node.col?, linerange v.node v.sib⟩ }
+  have hfc : env.forCheck bc = { env with v := v.erase, ctx := Ctx.blank } := forCheck_erased (blacklistCheck_usesPos hbc)
   have hkindE : (env.forCheck bc).node.kind = "Call".toList := by
     rw [hfc]; simp [Env.node, Visit.erase, hkind]
   have hcE : (env.forCheck bc).node.asCall? = some c := by
@@ -142,7 +142,7 @@ theorem import_reported
   have hrm := (firstImportRule_mem hr).1
   have hkm : k.toList ∈ bc.kinds := by rw [hkinds]; exact rulesFor_mem_kinds hrm
   generalize stateAfter {} (pre ++ [v]) = s
-  let env : Env := { v := v, st := s, ctx := ⟨v.node.line?, v.node.col?, linerange v.node v.sib⟩, lines := inp.lines }
+  let env : Env := { v := v, st := s, ctx := ⟨v.node.line?, v.node.col?, linerange v.node v.sib⟩ }
   have hd : dispatch v = some (k.toList, env.ctx) := by
     rcases hk with rfl | ⟨rfl, hm⟩
     · exact dispatch_plain hkind (by decide) (by decide) (by decide)
@@ -153,7 +153,7 @@ theorem import_reported
       | none => simp [hmm] at hm
       | some m => simp [dispatch, h1, h2, h3, hmm, hkind, env]
   refine mem_runVisit hd hmem hkm ?_
-  have hfc : env.forCheck bc = { env with v := v.erase } := forCheck_erased (blacklistCheck_usesPos hbc)
+  have hfc : env.forCheck bc = { env with v := v.erase, ctx := Ctx.blank } := forCheck_erased (blacklistCheck_usesPos hbc)
   have hrunv : bc.run (env.forCheck bc) = .ok (some { id := r.id, sev := r.level, conf := .high }) := by
     rw [hrun, hfc]
     rcases hk with rfl | ⟨rfl, hm⟩
